@@ -93,6 +93,20 @@ extern "C" int ioctl(int fd, unsigned long request, ...) {
   return real(fd, request, arg);
 }
 
+// Working-directory seam (C19): with VERIF_CWD=<path> in an invocation's environment getcwd() answers that path (the
+// in-memory disk has no notion of where it is mounted; compdb writes the answer into every entry).
+static std::string g_fake_cwd;
+extern "C" char* getcwd(char* buf, size_t size) {
+  if (nx::g_in_invocation && !g_fake_cwd.empty()) {
+    if (!buf) return strdup(g_fake_cwd.c_str());
+    if (g_fake_cwd.size() + 1 > size) { errno = ERANGE; return nullptr; }
+    memcpy(buf, g_fake_cwd.c_str(), g_fake_cwd.size() + 1);
+    return buf;
+  }
+  static auto real = (char* (*)(char*, size_t))dlsym(RTLD_NEXT, "getcwd");
+  return real(buf, size);
+}
+
 static double g_fake_load = 0.0;
 extern "C" int getloadavg(double loadavg[], int nelem) {
   for (int i = 0; i < nelem; ++i) loadavg[i] = g_fake_load;
@@ -205,9 +219,11 @@ RunResult RunNinja(vfs::Disk* d, const RunConfig& cfg, const std::vector<int>& c
   setenv("TERM", "dumb", 1);
   g_fake_load = 0.0;
   g_tty_cols = 0;
+  g_fake_cwd.clear();
   for (auto& kv : cfg.env) {
     if (kv.first == "VERIF_LOADAVG") { g_fake_load = atof(kv.second.c_str()); continue; }
     if (kv.first == "VERIF_TTY_COLS") { g_tty_cols = atoi(kv.second.c_str()); continue; }
+    if (kv.first == "VERIF_CWD") { g_fake_cwd = kv.second; continue; }
     setenv(kv.first.c_str(), kv.second.c_str(), 1);
   }
   JsBegin(cfg);
